@@ -39,8 +39,20 @@ def _setup(n, zero, xlevel, sp, special=None):
     X = sp.expand(u * T)
     table = [(sp.expand(c), l) for c, l in zip(C, levels)]
 
-    def level(e):
+    def level(e, scaled=False):
+        """Level of an expression among the running totals; ('w', i) for a single weight.  With scaled=True the answer is a pair
+        (level, scale): weights measured against their largest one (w / max(w), a positive unit in every class) keep their order."""
         e = sp.expand(e)
+        scale = None
+        mx = [a_ for a_ in e.atoms(sp.Max) if a_.args and all(x in w for x in a_.args) and len(a_.args) == len(w)]
+        if e != 0 and len(mx) == 1 and not scaled is None:
+            e2 = sp.expand(sp.simplify(e * mx[0]))
+            if not e2.atoms(sp.Max):
+                e, scale = e2, mx[0]
+        r = _level(e)
+        return (r, scale) if scaled else (r if scale is None else None)
+
+    def _level(e):
         if e == 0:
             return 0
         if e == X:
@@ -51,6 +63,8 @@ def _setup(n, zero, xlevel, sp, special=None):
         for i, wi in enumerate(w):
             if e == wi:
                 return ("w", i)
+        if isinstance(e, sp.Max) and set(e.args) == set(w):
+            return ("max",)
         return None
 
     nan_sym = w[-1] if special == "nan" and w else None      # in the NaN class the last weight is the NaN: whatever contains it is NaN
@@ -60,10 +74,20 @@ def _setup(n, zero, xlevel, sp, special=None):
             return op == "NotEq"                         # every ordered comparison with NaN is false
         if special in ("nan",) and (sp.expand(ea) == sp.expand(T) or sp.expand(eb) == sp.expand(T)):
             return op == "NotEq"                         # every ordered comparison with NaN is false
-        la, lb = level(ea), level(eb)
+        (la, sa), (lb, sb) = level(ea, True), level(eb, True)
         if la is None or lb is None:
             return None
-        if isinstance(la, tuple) or isinstance(lb, tuple):
+        if sa != sb and la != 0 and lb != 0:
+            return None                                  # one side measured in units of the largest weight, the other not
+        if ("max",) in (la, lb):
+            # the largest weight is positive in every class (some weight is non-zero)
+            if la == ("max",) and lb == 0:
+                d = 1
+            elif lb == ("max",) and la == 0:
+                d = -1
+            else:
+                return None
+        elif isinstance(la, tuple) or isinstance(lb, tuple):
             # a single weight against zero
             if isinstance(la, tuple) and lb == 0:
                 d = 0 if la[1] in zero else 1
@@ -87,10 +111,12 @@ def _setup(n, zero, xlevel, sp, special=None):
         if e.free_symbols <= set(w) | {u}:
             return {"isfinite": True, "isinf": False, "isnan": False}[kind]
         return None
+    oracle.level = level
     return w, u, C, levels, oracle, fact
 
 
-def _run1(ctx: Ctx, m, fn, n, mode, zero=frozenset(), xlevel=0.5, special=None, wlen=None, both=False, choices=(), seq="list"):
+def _run1(ctx: Ctx, m, fn, n, mode, zero=frozenset(), xlevel=0.5, special=None, wlen=None, both=False, choices=(), seq="list",
+          inexact=None):
     """Interpret deterministic_choice abstractly for one ordering class.  Returns ('value', v) | ('raise', class name),
     plus whether an argument list was changed."""
     import sympy as sp
@@ -107,6 +133,22 @@ def _run1(ctx: Ctx, m, fn, n, mode, zero=frozenset(), xlevel=0.5, special=None, 
     it.num_oracle = oracle
     it.num_fact = fact
     it.num_nonnegative = lambda e: e.free_symbols <= set(w) | {u}
+    if inexact is not None and mode == "weights" and special is None and n >= 2:
+        # the caller's integer weights have exact integer running totals (that is what `cum_weights=` would be given): a proper
+        # prefix sum that has become a Python float by the time the position is compared with it is rounded above 2**53
+        proper = {sp.expand(c): i for i, c in enumerate(C[:-1]) if sp.expand(c) != sp.expand(C[-1])}
+
+        def watch(op, a, b, site):
+            for x, y in ((a, b), (b, a)):
+                ex, ey = A._to_expr(x), A._to_expr(y)
+                if isinstance(x, A.Num) and x.fl and ex is not None and ey is not None and u in ey.free_symbols:
+                    ex = sp.expand(ex)
+                    mx = [a_ for a_ in ex.atoms(sp.Max) if set(a_.args) == set(w)]
+                    if len(mx) == 1:
+                        ex = sp.expand(sp.simplify(ex * mx[0]))      # measured against the largest weight
+                    if ex in proper:
+                        inexact.append((proper[ex], site))
+        it.num_compare_watch = watch
     # the items are opaque values of alternating kinds (int, float, str, ...): two of them may compare equal without being the
     # same item (0 and 0.0, 1 and True), and then it still matters WHICH one is returned
     kinds_ = ("int", "float", "str", "int")
@@ -171,7 +213,7 @@ def choice_semantics(ctx: Ctx):
         return cache
     import sympy as sp
     m, fn = _choice(ctx)
-    res = {"undecided": None, "located": [], "guards": [], "unweighted": None, "changed": [], "n_classes": 0}
+    res = {"undecided": None, "located": [], "guards": [], "unweighted": None, "changed": [], "n_classes": 0, "inexact": []}
     try:
         for mode in ("weights", "cum"):
             for n in range(1, NMAX + 1):
@@ -183,7 +225,8 @@ def choice_semantics(ctx: Ctx):
                     if 0 not in zero:
                         xs = [0] + xs          # u == 0
                     for xl in sorted(set(xs)):
-                        for (kind, v), pop, changed, (u, levels), assumed in _run(ctx, m, fn, n, mode, zero=zero, xlevel=xl):
+                        for (kind, v), pop, changed, (u, levels), assumed in _run(ctx, m, fn, n, mode, zero=zero, xlevel=xl,
+                                                                                                inexact=res["inexact"]):
                             want = next((i for i in range(n) if xl < levels[i]), n - 1)
                             cls = "rounding" if xl >= levels[-1] else ("tie" if float(xl).is_integer() else "interior")
                             got = None
@@ -234,7 +277,7 @@ def choice_semantics(ctx: Ctx):
     return res
 
 
-def report(ctx: Ctx, prefix: str, facets=("interior", "tie", "rounding", "unweighted", "guards", "unchanged"), names=None):
+def report(ctx: Ctx, prefix: str, facets=("interior", "tie", "rounding", "unweighted", "guards", "unchanged", "exact"), names=None):
     """Emit the obligations of the abstract evaluation for one property.  Returns False when the analysis is undecided (the
     caller then falls back to the idiom rules)."""
     sem = choice_semantics(ctx)
@@ -281,5 +324,14 @@ def report(ctx: Ctx, prefix: str, facets=("interior", "tie", "rounding", "unweig
         ctx.rep.check(not sem["changed"], f"{prefix}.ARGS-UNMODIFIED", con + "[abstract runs]",
                       "no abstract run changed population, weights or running totals" if not sem["changed"] else
                       f"the argument lists are changed during a call ({sem['changed'][0]})", site=site, text="arguments changed")
+    if "exact" in facets:
+        bad = sorted(set(sem["inexact"]))
+        ctx.rep.check(not bad, f"{prefix}.TOTALS-EXACT", con + "[running totals of the weights]",
+                      "given `weights`, the position is compared with their running totals as summed (no proper prefix sum is a value "
+                      "converted to float first): integer weights keep exact integer totals, as if given as `cum_weights`" if not bad else
+                      f"given `weights`, the running total of the first {bad[0][0] + 1} weight(s) is a float when the position is compared "
+                      f"with it at {bad[0][1]} (float start value, float() or a division on the way): integer weights above 2**53 get "
+                      "rounded boundaries, so `weights=` and the same numbers as `cum_weights=` choose differently for a unit between the "
+                      "exact and the rounded boundary", site=site, text="running totals float")
     ctx.rep.extra["choice_ordering_classes"] = sem["n_classes"]
     return True
